@@ -2072,8 +2072,10 @@ impl<E: Effect> Executor<E> {
         let first = &values[0];
         let all_equal = values.iter().all(|value| self.values_equal(first, value));
 
+        // The verdict is Ok or nil, not the compared value: nil equals nil, and yielding that nil
+        // would read as "unequal" to the `Not` / `JumpIf` every pattern check continues with.
         let result = if all_equal {
-            first.clone()
+            Value::ok()
         } else {
             Value::nil()
         };
